@@ -45,7 +45,7 @@ def make_history(path_or_data, seed, nsteps, name=None, guided=True):
         nxt = proj.state_to_json(env.state)
         last = t == nsteps - 1
         reset = bool(d) and not last
-        recs.append({'id': t, 'st': st, 'a': a, 'next': nxt, 'reset': reset})
+        recs.append({'id': t, 'st': st, 'a': a, 'next': nxt, 'reset': reset, 'r': float(r), 'd': bool(d), 'rtype': type(r).__name__, 'dtype': type(d).__name__})
         if reset:
             env.reset()
             plan = []
@@ -87,4 +87,19 @@ def validate(paths, parallel=16):
         if not d:
             raise RuntimeError(f'TLC did not finish {p}:\n{res.raw[-2000:]}')
         out.append((p, res, [(t[1], sorted(t[2]['set'])) for t in res.find('BAD')]))
+    return out
+
+
+def to_step_records(recs, data, want, rid0=0):
+    """Trace_Step records (with the configured reward / termination lists) from a history"""
+    cfg = config.spec_config(data)
+    out = []
+    g = recs[1]['st']['grid']
+    space = {'shape': [len(g), len(g[0])], 'types': cfg['state_space']['types'], 'colors': [c for c in cfg['state_space']['colors'] if c != 'NONE']}
+    for r in recs[1:]:
+        out.append({'id': rid0 + r['id'], 'want': want, 'fam': '', 'fi': -1, 'fsize': -1, 'k': -1, 'space': space, 'comps': cfg['comps'],
+                    'rew': [cfg['rew']], 'term': [cfg['term']], 'st': r['st'],
+                    'acts': [{'a': r['a'], 'outcome': 'ok', 'full': False, 'same': False, 'support': [r['next']], 'r': [proj.milli(r['r'])],
+                              'rtype': [r['rtype']], 'rfinite': [True], 'rexact': [proj.is_milli_exact(r['r'])], 'done': [r['d']], 'dtype': [r['dtype']]}],
+                    'mutated': False})
     return out
